@@ -15,6 +15,7 @@
 // and <pathHex>=d (empty directories only), read back from the returned manifest through a
 // collection filesystem over the same fake Keep store; or "err <class>"; or "panic <class>"; or
 // "diverge" (the plan grew beyond 2000 directories: unbounded recursion, stopped by the watchdog);
+// or "hang" (Copy did not return within 15 s + 5 s grace, e.g. a deadlock while flushing);
 // or "skip-config".
 package crunchrun
 
@@ -399,7 +400,9 @@ func verifC17Case(line string) (out string) {
 	}()
 	var res copyResult
 	diverged := false
+	hung := false
 	start := time.Now()
+	var firedAt time.Time
 	tick := time.NewTicker(10 * time.Millisecond)
 waiting:
 	for {
@@ -407,13 +410,23 @@ waiting:
 		case res = <-resc:
 			break waiting
 		case <-tick.C:
-			if !diverged && (len(cp.dirs) > 2000 || len(cp.manifest) > 4<<20 || time.Since(start) > 40*time.Second) {
+			if !diverged && (len(cp.dirs) > 2000 || len(cp.manifest) > 4<<20 || time.Since(start) > 15*time.Second) {
 				diverged = true
+				firedAt = time.Now()
 				os.RemoveAll(root)
+			}
+			if diverged && time.Since(firedAt) > 5*time.Second {
+				// Not a runaway walk (that ends at the next Lstat): Copy is blocked, e.g. in
+				// Flush/MarshalManifest. Its goroutines are abandoned.
+				hung = true
+				break waiting
 			}
 		}
 	}
 	tick.Stop()
+	if hung {
+		return "hang"
+	}
 	if diverged {
 		return "diverge"
 	}
